@@ -84,7 +84,7 @@ def mixed_program(rng, u, depth=0, allow_pos=True, size=None, macros=None, comme
             items.append(pp.ifdef(name) if rng.random() < 0.6 else pp.ifndef(name))
             sub_m = dict(macros)
             items += mixed_program(rng, u, depth + 1, allow_pos, rng.randint(0, 3), sub_m, comments, strings)
-            if rng.random() < 0.4:
+            for _ in range(rng.choice([0, 0, 0, 1, 1, 2, 3])):      # chains with several `elsif: at most one branch is live
                 items.append(pp.elsif(rng.choice(["A", "B", "C"])))
                 items += mixed_program(rng, u, depth + 1, allow_pos, rng.randint(0, 2), dict(macros), comments, strings)
             if rng.random() < 0.5:
